@@ -41,10 +41,11 @@ def body(rng, p):
             p.aeqc(p.w(7), 3, 4)
 
 
-def raw_family_case(rng, fam, violate):
+def raw_family_case(rng, fam, violate, with_body=True):
     """one raw row of a chosen widget family with a satisfying (or minimally violating) assignment, followed by an anchor row"""
     p = Prog(); p.tags = ["raw-" + fam, "violate" if violate else "satisfy"]
-    body(rng, p)
+    if with_body:
+        body(rng, p)
     q = [0] * 11
     if fam == "range":
         d = rng.fe() % 1000; qs = [rng.below(4) for _ in range(4)]
